@@ -1507,7 +1507,75 @@ fn same_name_label_pairs(out: &mut Out) {
     }
 }
 
+/// (round 5, after seed C19-10) a snapshot taken WHILE another thread is inside a first-time registration (and holds the
+/// subshard's write lock) must wait for it and then list every metric that was registered before: a listing that skips a
+/// locked subshard silently omits its metrics. No scheduler: the registering thread is held inside `key.clone()` under
+/// the write lock (through the `cow-clone` yield hook) for a while; the oracle is order-based — whenever the snapshot
+/// returns, it must contain all keys registered before it began (if the holder finished first, it trivially does).
+#[cfg(has_cow_hook)]
+fn snapshot_vs_lock_holder(out: &mut Out) {
+    use std::sync::atomic::{AtomicBool, AtomicUsize, Ordering as O};
+    static ARMED: AtomicBool = AtomicBool::new(false);
+    static INSIDE: AtomicUsize = AtomicUsize::new(0);
+    thread_local! { static HOLDER: std::cell::Cell<bool> = std::cell::Cell::new(false); }
+    fn hook(id: &'static str) {
+        if id == "cow-clone" && ARMED.load(O::SeqCst) && HOLDER.with(|h| h.get()) {
+            INSIDE.fetch_add(1, O::SeqCst);
+            std::thread::sleep(std::time::Duration::from_millis(120));
+        }
+    }
+    out.case("snapshot while a registration holds a subshard lock");
+    let rec = Arc::new(DebuggingRecorder::new());
+    let snap = rec.snapshotter();
+    let meta = metrics::Metadata::new("t", metrics::Level::INFO, None);
+    let n = 400usize;
+    for i in 0..n {
+        rec.register_counter(&Key::from_name(format!("held_{}", i)), &meta).increment(1);
+    }
+    let mut worst_missing = 0usize;
+    let mut rounds_overlapped = 0usize;
+    for round in 0..6 {
+        INSIDE.store(0, O::SeqCst);
+        metrics::verif_key_hook::set(Some(hook));
+        ARMED.store(true, O::SeqCst);
+        let r2 = rec.clone();
+        let holder = std::thread::spawn(move || {
+            HOLDER.with(|h| h.set(true));
+            let meta = metrics::Metadata::new("t", metrics::Level::INFO, None);
+            // a NEW key: the slow path clones it under the subshard's write lock
+            r2.register_counter(&Key::from_name(format!("newcomer_{}", round)), &meta).increment(1);
+        });
+        let t0 = std::time::Instant::now();
+        while INSIDE.load(O::SeqCst) == 0 && t0.elapsed() < std::time::Duration::from_secs(5) {
+            std::thread::yield_now();
+        }
+        let overlapped = INSIDE.load(O::SeqCst) > 0;
+        let v = snap.snapshot().into_vec();
+        ARMED.store(false, O::SeqCst);
+        let _ = holder.join();
+        metrics::verif_key_hook::set(None);
+        let listed = v.iter().filter(|(ck, _, _, _)| ck.key().name().starts_with("held_")).count();
+        if overlapped {
+            rounds_overlapped += 1;
+        }
+        worst_missing = worst_missing.max(n - listed.min(n));
+    }
+    out.count(&format!("snapshot vs lock holder: rounds with the holder inside when the snapshot began: {}", rounds_overlapped.min(6)));
+    out.nontrivial();
+    if worst_missing > 0 {
+        out.oracle_fail(
+            "a snapshot taken while another thread was registering a new metric omits metrics that were registered before it began",
+            &format!("{} pre-registered counters, up to {} missing from a snapshot that overlapped a first-time registration", n, worst_missing),
+        );
+    }
+}
+#[cfg(not(has_cow_hook))]
+fn snapshot_vs_lock_holder(out: &mut Out) {
+    out.count("snapshot vs lock holder: skipped (cow-clone hook absent)");
+}
+
 pub fn run(cfg: &Cfg, out: &mut Out) {
+    snapshot_vs_lock_holder(out);
     same_name_label_pairs(out);
     quiet_scope_panics();
     let mut w = install_global(out, Workers::new(2));
